@@ -553,14 +553,14 @@ StylesheetExecutionContextDefault::setFormatterListener(FormatterListener*  flis
 int
 StylesheetExecutionContextDefault::getIndent() const
 {
-    if (m_indentAmount != -1)
+    // Between transformations there is no processor to ask, so
+    // report that no indent amount was set...
+    if (m_indentAmount != -1 || m_xsltProcessor == 0)
     {
         return m_indentAmount;
     }
     else
     {
-        assert(m_xsltProcessor != 0);
-
         return m_xsltProcessor->getXMLParserLiaison().getIndent();
     }
 }
